@@ -163,7 +163,8 @@ def check_bound(ctx, fi, scen, which, path, value):
             if r is not None and r != pol:
                 return False
         return True
-    if not any(feasible(n, 0) for n in range(nmin, 7)):
+    NMAX = 13 if ctx.tier == 'thorough' else 7
+    if not any(feasible(n, 0) for n in range(nmin, NMAX)):
         return True           # path contradicts the scenario (e.g. empty axis in the decreasing table)
     if value == T.CONST_NONE and not mine:
         # closed bound turned into an open one without looking at the labels
@@ -185,7 +186,7 @@ def check_bound(ctx, fi, scen, which, path, value):
         return False
     sscall = list(mine)[0]
     ok = True
-    for n in range(nmin, 7):
+    for n in range(nmin, NMAX):
         for s in range(0, n + 1):
             atoms = {sscall: s}
             for z in sizes:
